@@ -24,6 +24,12 @@ func (s *Store) VerifProcessLTXStreamFrame(ctx context.Context, frame *LTXStream
 	return s.processLTXStreamFrame(ctx, frame, src)
 }
 
+// VerifNewPrimaryCtx exposes the constructor of the primary-scoped context: a context that is
+// done when primaryCh is closed (the node lost its lease) or when parent is done.
+func VerifNewPrimaryCtx(parent context.Context, primaryCh chan struct{}) context.Context {
+	return newPrimaryCtx(parent, primaryCh)
+}
+
 // VerifSetLockHook installs fn as the state-change callback of the database's twelve locks.
 // Must be called before the locks are used.
 func (db *DB) VerifSetLockHook(fn func(lockType LockType, prev, next RWMutexState)) {
